@@ -107,7 +107,7 @@ def times(spec):
     return tc, ti
 
 
-def guess_matrix(g, rows, times_, cols_of):
+def guess_matrix(g, rows, times_, cols_of, vals=None):
     """expected physical values, shape rows x len(times_).  cols_of[j] = column index into an array guess"""
     n = len(times_)
     out = np.zeros((rows, n))
@@ -131,7 +131,7 @@ def guess_matrix(g, rows, times_, cols_of):
         comps = ast[1:] if ast[0] == "vec" else [ast] * rows
         for r in range(rows):
             for j in range(n):
-                out[r, j] = E.evalnum(comps[r], t=times_[j])
+                out[r, j] = E.evalnum(comps[r], t=times_[j], vals=vals)
         return out
     raise ValueError(g)
 
@@ -157,6 +157,12 @@ def c10_absolute(w, act, st, rec, fresh, recF):
     cls = m["cls"]
     tc, ti = times(spec)
     ini = dict((x, g) for x, g in spec.initial)
+    # current values of scalar global parameters (a guess may mention them)
+    pvals = {}
+    for p_ in spec.names("parameter"):
+        v_ = raw_value(spec.values.get(p_, 0.0)) if p_ in spec.values else None
+        if isinstance(v_, (int, float)):
+            pvals[p_] = float(v_)
     checked = 0
     covered = None
 
@@ -187,7 +193,7 @@ def c10_absolute(w, act, st, rec, fresh, recF):
         if kind == "state":
             e = ocp.sample(sym, grid="control")[1]
             got = _eval(opti, rec, e)
-            exp = guess_matrix(g, rows, tc, list(range(N + 1)))
+            exp = guess_matrix(g, rows, tc, list(range(N + 1)), pvals)
             if cls == "SingleShooting":
                 cmp(name, "at node 0", got[:, :1], exp[:, :1])
                 cover(e[:, 0])
@@ -198,7 +204,7 @@ def c10_absolute(w, act, st, rec, fresh, recF):
                 e = ocp.sample(sym, grid="integrator")[1]
                 tt = [t for (_, _, t, _) in ti] + [tc[-1]]
                 cols = [k for (k, _, _, _) in ti] + [-1]
-                cmp(name, "at integrator nodes", _eval(opti, rec, e), guess_matrix(g, rows, tt, cols))
+                cmp(name, "at integrator nodes", _eval(opti, rec, e), guess_matrix(g, rows, tt, cols, pvals))
                 cover(e)
                 tau = ca.collocation_points(m.get("degree", 4), m.get("scheme", "radau"))
                 e = ocp.sample(sym, grid="integrator_roots")[1]
@@ -207,25 +213,25 @@ def c10_absolute(w, act, st, rec, fresh, recF):
                     for tj in tau:
                         tt.append(t + dt * tj)
                         cols.append(k)
-                cmp(name, "at collocation points", _eval(opti, rec, e), guess_matrix(g, rows, tt, cols))
+                cmp(name, "at collocation points", _eval(opti, rec, e), guess_matrix(g, rows, tt, cols, pvals))
                 cover(e)
         elif kind == "control":
             e = ocp.sample(sym, grid="control")[1][:, :N]
-            cmp(name, "on control intervals", _eval(opti, rec, e), guess_matrix(g, rows, tc[:N], list(range(N))))
+            cmp(name, "on control intervals", _eval(opti, rec, e), guess_matrix(g, rows, tc[:N], list(range(N)), pvals))
             cover(e)
         elif kind == "variable":
             grid = s.get("grid", "")
             if grid == "":
                 e = ocp.value(sym)
-                cmp(name, "(global)", _eval(opti, rec, e).reshape((rows, 1)), guess_matrix(g, rows, [tc[0]], [0]))
+                cmp(name, "(global)", _eval(opti, rec, e).reshape((rows, 1)), guess_matrix(g, rows, [tc[0]], [0], pvals))
                 cover(e)
             elif s.get("include_last"):
                 e = ocp.sample(sym, grid="control")[1]
-                cmp(name, "at control nodes", _eval(opti, rec, e), guess_matrix(g, rows, tc, list(range(N + 1))))
+                cmp(name, "at control nodes", _eval(opti, rec, e), guess_matrix(g, rows, tc, list(range(N + 1)), pvals))
                 cover(e)
             else:
                 e = ocp.sample(sym, grid="control")[1][:, :N]
-                cmp(name, "on control intervals", _eval(opti, rec, e), guess_matrix(g, rows, tc[:N], list(range(N))))
+                cmp(name, "on control intervals", _eval(opti, rec, e), guess_matrix(g, rows, tc[:N], list(range(N)), pvals))
                 cover(e)
         elif kind == "algebraic" and cls == "DirectCollocation":
             deg = m.get("degree", 4)
@@ -236,7 +242,7 @@ def c10_absolute(w, act, st, rec, fresh, recF):
                 for tj in tau:
                     tt.append(t + dt * tj)
                     cols.append(k)
-            cmp(name, "at collocation points", _eval(opti, rec, e), guess_matrix(g, rows, tt, cols))
+            cmp(name, "at collocation points", _eval(opti, rec, e), guess_matrix(g, rows, tt, cols, pvals))
             cover(e)
     t0g, Tg = horizon_guess(spec)
     if spec.T[0] == "free":
